@@ -1,4 +1,5 @@
 import ZbossModel.Proofs.RxLog
+import ZbossModel.Proofs.RxLocated
 /-! # C01 - serial receive decoding is exact and independent of chunk boundaries -/
 namespace Zboss.Rx
 open Gen
@@ -52,5 +53,142 @@ example : deliveredOf (session (fun _ => false) { transport := true }
       [[1, 2, 3, 4, 5, 6, 7, 0xDE], [0xAD, 0x0c, 0x00, 0x06, 0xc8, 0xe9, 0x31, 0xa4, 0x00, 0x00, 0x02, 0x00, 0x01]]).2
       ≠ [] := by
   rw [C01_chunking]; decide +kernel
+
+end Zboss.Rx
+
+namespace Zboss.Rx
+open Gen
+
+/-! ## declarative part: which frames, where, when -/
+
+/-- **each once, in stream order, at a position where the frame is well-formed**: the frames of the whole-stream
+    parse come with stream positions; positions increase, frames do not overlap, and at its position every
+    frame is accepted by the single-frame parser (`C01_accepted_is_wellformed` says what that means) -/
+theorem C01_sound (s : Bytes) :
+    (located tryFrame s).map (·.2.1) = (run tryFrame s).1 ∧ Ordered 0 (located tryFrame s) ∧
+    ∀ e ∈ located tryFrame s, e.1 + e.2.2 ≤ s.length ∧ tryFrame (s.drop e.1) = .ok e.2.1 e.2.2 := by
+  have h1 := located_frames zbossScanner s
+  have h2 := extractAt_ordered zbossScanner s (s.length + 1) 0 (Nat.zero_le _)
+  have h3 := extractAt_sound zbossScanner s (s.length + 1) 0 (Nat.zero_le _)
+  simp only [zbossScanner, List.drop_zero] at h1 h2 h3
+  refine ⟨h1, h2, ?_⟩
+  intro e he
+  have := h3 e he
+  exact ⟨this.2.1, this.2.2⟩
+
+/-- **accepted ⇒ well-formed**: start marker, NCP frame type, valid header checksum, a declared length of at
+    least 5 that fits the bytes present; the frame consumes at most its declared extent -/
+theorem C01_accepted_is_wellformed (b : Bytes) (f : Frame) (n : Nat) (h : tryFrame b = .ok f n) :
+    b.take 2 = [0xDE, 0xAD] ∧ (b.getD 4 0).toNat = 6 ∧ (Crc.crc8B (slice b 2 6)).toNat = (b.getD 6 0).toNat ∧
+    5 ≤ fromLE (slice b 2 4) ∧ fromLE (slice b 2 4) + 2 ≤ b.length ∧ 7 ≤ n ∧ n ≤ fromLE (slice b 2 4) + 2 := by
+  obtain ⟨e, he, hn, hle⟩ := extent_ok b f n h
+  have hh : headerOk b = true := by
+    cases hh : headerOk b with
+    | true => rfl
+    | false => simp [extent, hh] at he
+  simp only [extent, hh, if_true, Option.some.injEq] at he
+  obtain ⟨h7, c1, c2, c3, c4⟩ := (headerOk_iff b).mp hh
+  rw [sig_bytes] at c1
+  exact ⟨c1, c2, c3, c4, by omega, (tryFrame_ok_le b f n h).1, by omega⟩
+
+theorem hasFlag_or (fl a b : Nat) : Frame.hasFlag fl (a ||| b) = (Frame.hasFlag fl a || Frame.hasFlag fl b) := by
+  unfold Frame.hasFlag
+  rw [Nat.and_or_distrib_left]
+  by_cases h1 : fl &&& a = 0 <;> by_cases h2 : fl &&& b = 0 <;> simp [h1, h2, Nat.or_eq_zero_iff]
+
+/-- a data frame (first fragment, continuation or complete) is accepted only with a valid body checksum over
+    exactly the declared body, and then consumes exactly its declared extent -/
+theorem C01_accepted_body_crc (b : Bytes) (f : Frame) (n : Nat) (h : tryFrame b = .ok f n) (hdata : isAck f = false) :
+    2 ≤ ((b.drop 7).take (fromLE (slice b 2 4) - 5)).length ∧
+    fromLE (((b.drop 7).take (fromLE (slice b 2 4) - 5)).take 2) =
+      Crc.crc16B (((b.drop 7).take (fromLE (slice b 2 4) - 5)).drop 2) ∧
+    n = fromLE (slice b 2 4) + 2 := by
+  obtain ⟨e, he, hn, hle⟩ := extent_ok b f n h
+  have hh : headerOk b = true := by
+    cases hh : headerOk b with
+    | true => rfl
+    | false => simp [extent, hh] at he
+  obtain ⟨h7, c1, c2, c3, c4⟩ := (headerOk_iff b).mp hh
+  have h7' : 7 ≤ b.length := by omega
+  have hsz := size_ofBytes b h7'
+  have hnotshort : ¬ b.length < fromLE (slice b 2 4) + 2 := by
+    intro hlt
+    have := (short_iff_incomplete b hh).mpr hlt
+    rw [this] at h; cases h
+  rw [tryFrame_after_header b hh, if_neg hnotshort] at h
+  generalize hL : fromLE (slice b 2 4) = L at *
+  have hk : ((L : Int) - 5) = ((L - 5 : Nat) : Int) := by omega
+  have hpl : (List.take (L - 5) (b.drop 7)).length = L - 5 := by simp; omega
+  have hdl : (List.drop (L - 5) (b.drop 7)).length = b.length - (L + 2) := by simp; omega
+  -- the library decoder on a buffer that holds the whole extent
+  unfold Frame.deserialize at h
+  simp only [show ¬ b.length < 7 from h7, if_false, hsz] at h
+  by_cases c5 : LL.sig (LL.ofBytes b) ≠ Gen.signature
+  · simp [c5] at h
+  by_cases c6 : LL.crcOf (LL.ofBytes b) ≠ LL.crc (LL.ofBytes b)
+  · simp [c5, c6] at h
+  simp only [c5, c6, if_false] at h
+  by_cases c7 : Frame.hasFlag (LL.flags (LL.ofBytes b)) Gen.flagisACK = true
+  · simp only [c7, if_true, hasFlag_or, Bool.true_or] at h
+    injection h with h1 _
+    rw [← h1] at hdata
+    simp [isAck, c7] at hdata
+  have c7' : Frame.hasFlag (LL.flags (LL.ofBytes b)) Gen.flagisACK = false := by simpa using c7
+  simp only [c7', Bool.false_eq_true, if_false, hk, Frame.pyTake, Frame.pyDrop, Int.toNat_natCast, Int.natCast_nonneg,
+    ge_iff_le, if_true] at h
+  by_cases c8 : Frame.hasFlag (LL.flags (LL.ofBytes b)) Gen.flagFirstFrag = true
+  · simp only [c8, if_true] at h
+    cases hp : HLPacket.deserialize (List.take (L - 5) (b.drop 7)) with
+    | error e => rw [hp] at h; cases e <;> simp at h
+    | ok p =>
+      rw [hp] at h
+      simp only [hasFlag_or, c8, Bool.or_true, if_true] at h
+      injection h with _ h2
+      unfold HLPacket.deserialize at hp
+      split at hp
+      · cases hp
+      · rename_i hl2
+        simp only [] at hp
+        split at hp
+        · cases hp
+        · rename_i hcrc
+          exact ⟨by omega, by simpa using hcrc, by rw [← h2, hdl]; omega⟩
+  · have c8' : Frame.hasFlag (LL.flags (LL.ofBytes b)) Gen.flagFirstFrag = false := by simpa using c8
+    simp only [c8', Bool.false_eq_true, if_false, hasFlag_or, c7', Bool.or_self] at h
+    split at h
+    · cases h
+    · rename_i hl2
+      split at h
+      · cases h
+      · rename_i hcrc
+        injection h with _ h2
+        exact ⟨by omega, by simpa using hcrc, by rw [← h2, hdl]; omega⟩
+
+/-- **complete**: a frame the parser accepts at stream position `i` - fully arrived - is among the frames of the
+    parse, unless an earlier position carries a checksum-valid header whose declared extent reaches over `i` -/
+theorem C01_complete (s : Bytes) (i n : Nat) (f : Frame) (hok : tryFrame (s.drop i) = .ok f n)
+    (hfree : ∀ j, j < i → ∀ e, extent (s.drop j) = some e → j + e ≤ i) : (i, f, n) ∈ located tryFrame s :=
+  located_complete zbossScanner zbossExtent s i n f hok hfree
+
+theorem mem_delivered (tr : Bool) (frames : List Frame) (f : Frame) (hf : f ∈ frames) (hd : isAck f = false)
+    (p : HLPacket) (hp : f.hl = some p) : f ∈ deliveredOf (frames.flatMap (outsOf tr)) := by
+  simp only [deliveredOf, List.mem_filterMap, List.mem_flatMap]
+  refine ⟨.deliver f, ⟨f, hf, ?_⟩, rfl⟩
+  simp [outsOf, hd, hp]
+
+/-- **prompt**: as soon as the last byte of such a data frame has arrived - whatever the reads were cut into,
+    whatever the handler did - the frame has been handed to the upper layer -/
+theorem C01_complete_prompt (h : Frame → Bool) (tr : Bool) (chunks : List Bytes) (i n : Nat) (f : Frame) (p : HLPacket)
+    (hok : tryFrame (chunks.flatten.drop i) = .ok f n) (hd : isAck f = false) (hp : f.hl = some p)
+    (hfree : ∀ j, j < i → ∀ e, extent (chunks.flatten.drop j) = some e → j + e ≤ i) :
+    f ∈ deliveredOf (session h { transport := tr } chunks).2 := by
+  rw [C01_chunking]
+  have hmem := C01_complete chunks.flatten i n f hok hfree
+  have hf : f ∈ (run tryFrame chunks.flatten).1 := by
+    have h1 := located_frames zbossScanner chunks.flatten
+    simp only [zbossScanner] at h1
+    rw [← h1]
+    exact List.mem_map.mpr ⟨(i, f, n), hmem, rfl⟩
+  exact mem_delivered tr _ f hf hd p hp
 
 end Zboss.Rx
